@@ -98,6 +98,13 @@ def run(ctx):
                 for so, m in NAMES:
                     cases.append({"fn": "response", "phases": [hexf(x) for x in ph], "adat": [hexf(a) for a in ad],
                                   "signal_operator": so, "measurement": m, "timeout": 300})
+        # exactly palindromic phase lists (symmetric protocols), odd and even length, the middle phase different from its neighbours
+        for n_ in ((3, 4, 5, 8, 9) if quick else range(2, 21)):
+            half = [rng.uniform(-2, 2) for _ in range((n_ + 1) // 2)]
+            ph_ = half + half[::-1][n_ % 2:]
+            for so_, m_ in NAMES:
+                cases.append({"fn": "response", "phases": [hexf(x) for x in ph_], "adat": [hexf(a) for a in gen_adat(rng)], "signal_operator": so_,
+                              "measurement": m_, "timeout": 120})
         # integer-typed phase lists (Python ints / int ndarray) with entries beyond +-pi
         for _k in range(4 if quick else 24):
             _ph = [float(rng.choice([-7, -5, -4, 4, 6, 9, 1, 0, -2, 3])) for _ in range(rng.randint(1, 6))]
